@@ -160,7 +160,7 @@ func (s *state) wideList(rt *rapid.T) e5.Value {
 // a few depths: element-free containers are where per-item bookkeeping (depth counters, slab slots,
 // length fields) is most easily skipped or double counted.
 func (s *state) manyEmpty(rt *rapid.T) e5.Value {
-	n := rapid.SampledFrom([]int{3, 62, 63, 64, 65, 66, 70, 128, 300}).Draw(rt, "emptyn")
+	n := rapid.SampledFrom([]int{3, 62, 63, 64, 65, 66, 70, 128, 200, 254, 255, 256, 257, 300}).Draw(rt, "emptyn")
 	v := e5.Value{FC: e5.List, List: make([]e5.Value, 0, n)}
 	for i := 0; i < n; i++ {
 		switch i % 7 {
